@@ -20,7 +20,7 @@ import (
 func init() {
 	vhRegister("VH_C05_Stream", func(p []int) { VH_C05_Stream(p[0], p[1], p[2], p[3]) })
 	vhRegister("VH_C07_Handshake", func(p []int) { VH_C07_Handshake(p[0]) })
-	vhRegister("VH_C07_Attempts", func(p []int) { VH_C07_Attempts(p[0]) })
+	vhRegister("VH_C07_Attempts", func(p []int) { VH_C07_Attempts(p[0], p[1]) })
 }
 
 const (
@@ -289,14 +289,24 @@ const (
 //	cause   stop cause (sc*)
 //	npk     number of transaction packets after the format description (0..2)
 //	ahead   0 lock-step hand-off, 1 master far ahead
-//	hmode   handler: 0 returns at once, 1 yields before returning; 2: as 0, with an 18-byte master error message
+//	hmode   handler: 0 returns at once, 1 yields before returning; 2: as 0, with an 18-byte master error message;
+//	        3: as 0, with a STOP_EVENT in the stream before the transactions
 func VH_C05_Stream(cause, npk, ahead, hmode int) {
 	msgLen := 3
 	if hmode == 2 {
 		msgLen, hmode = 18, 0
 	}
+	stopEvent := hmode == 3
+	if stopEvent {
+		hmode = 0
+	}
 	sc := &vScript{ahead: ahead == 1}
 	sc.packets = append(sc.packets, vwRotate("bin.000001", 4), vwFDE())
+	if stopEvent {
+		// a STOP_EVENT (the old file was closed by a server shutdown) passes through before the
+		// transactions: whatever ends the stream later is reported exactly as without it
+		sc.packets = append(sc.packets, vwEv(3, 150, nil))
+	}
 	for i := 0; i < npk; i++ {
 		sc.packets = append(sc.packets, vwQuery("create table t"+string(rune('0'+i))+" (a int)", uint32(200+100*i)))
 	}
@@ -462,18 +472,18 @@ func VH_C07_Handshake(nameLen int) {
 	vhCover("handshake")
 }
 
-// VH_C07_Attempts: up to `attempts` failed attempts followed by a successful one on the
+// VH_C07_Attempts(attempts, ahead): up to `attempts` failed attempts followed by a successful one on the
 // same streamer against a master that serves the log from whatever position is requested.
 // Log: bin.999999 (start 100) holds DDL transactions ending at 200 and 300 and is then rotated
 // to bin.1000000 (a file name that sorts BEFORE the old one), which holds one ending at 400.
-func VH_C07_Attempts(attempts int) {
+func VH_C07_Attempts(attempts, ahead int) {
 	const oldFile, newFile = "bin.999999", "bin.1000000"
 	type logTx struct {
 		file       string
 		start, end uint32
 	}
 	log := []logTx{{oldFile, 100, 200}, {oldFile, 200, 300}, {newFile, 4, 400}}
-	sc := &vScript{pipe: true}
+	sc := &vScript{pipe: true, ahead: ahead == 1} // pacing: lock-step, or the master far ahead of the reader
 	var requested []uint32
 	var files []string
 	sc.serve = func(file string, offset uint32) [][]byte {
@@ -542,7 +552,9 @@ func VH_C07_Attempts(attempts int) {
 			}
 			return nil
 		})
-		_ = err
+		if last {
+			vhAssert(err == nil, "the final attempt streams to the master's EOF without an error")
+		}
 		s.Error()
 		vhQuiesce()
 		// every attempt announces checksum awareness on ITS connection before it requests the dump
@@ -572,6 +584,8 @@ func VH_C07_Attempts(attempts int) {
 		vhAssert(kept.Filename == ghost.Filename && kept.Offset == ghost.Offset, "the stored position is the boundary after the last accepted transaction (moved by a consumed rotation)")
 	}
 	vhAssert(requested[0] == 100 && files[0] == oldFile, "first attempt starts at the configured position")
-	vhAssert(len(accepted) == 3 && accepted[0] == 200 && accepted[1] == 300 && accepted[2] == 400, "over all attempts every transaction is accepted exactly once, in order")
+	vhAssert(len(accepted) <= 3, "no transaction is accepted twice")
+	vhAssert(len(accepted) >= 3, "no transaction is lost over the attempts")
+	vhAssert(accepted[0] == 200 && accepted[1] == 300 && accepted[2] == 400, "over all attempts every transaction is accepted exactly once, in order")
 	vhCover("attempts")
 }
